@@ -148,7 +148,7 @@ def run_equiv(n, sub_seed):
     return res
 
 
-def run_procs(n, sub_seed):
+def run_histories(n, sub_seed, mode="procs"):
     res = ShardResult()
     rng = random.Random(sub_seed)
     contents = {k: make_content(v["cseed"], v["size"]) for k, v in SPEC.items()}
@@ -160,11 +160,14 @@ def run_procs(n, sub_seed):
     try:
         for k in range(n):
             name = f"h{k}"
-            w = mp_store_world(scratch, name, contents, docs, pids, fmts)
-            if not getattr(w.store, "use_multiprocessing", False) or mp_lists(w.store) is None:
-                res.violation({"symptom": "mp-call-error", "detail": "multiprocessing primitives missing on the instance"},
-                              {"engine": "C16c", "note": "store built with USE_MULTIPROCESSING=True has no *_mp attributes"})
-                return res
+            if mode == "procs":
+                w = mp_store_world(scratch, name, contents, docs, pids, fmts)
+                if not getattr(w.store, "use_multiprocessing", False) or mp_lists(w.store) is None:
+                    res.violation({"symptom": "mp-call-error", "detail": "multiprocessing primitives missing on the instance"},
+                                  {"engine": "C16c", "note": "store built with USE_MULTIPROCESSING=True has no *_mp attributes"})
+                    return res
+            else:
+                w = World(scratch, contents, docs, pids=pids, fmts=fmts, store_dir=name)
             # start state
             start = rng.choice([[], [{"op": "store", "pid": "p1", "content": "A", "kind": "path"}],
                                 [{"op": "store", "pid": "p1", "content": "A", "kind": "path"},
@@ -196,7 +199,11 @@ def run_procs(n, sub_seed):
                     else:
                         plan.append({"op": "dmeta", "pid": rng.choice(pids), "fmt": None})
                 plans.append(plan)
-            records, codes, hung = FR.run_processes(w, plans, rng.getrandbits(30))
+            if mode == "procs":
+                records, codes, hung = FR.run_processes(w, plans, rng.getrandbits(30))
+            else:
+                records, hung = FR.run_threads(w, plans, rng.getrandbits(30))
+                codes = [0] * len(plans)
             res.evaluations += 1
             res.count("process_histories")
             res.count("process_calls_recorded", len(records))
@@ -204,7 +211,7 @@ def run_procs(n, sub_seed):
             wit = {"engine": "C16c", "start": start, "plans": plans, "exit_codes": codes,
                    "history": [{k2: r.get(k2) for k2 in ("w", "i", "t0", "t1", "ok", "exc", "msg")} for r in records]}
             shape = {"ops": sorted({o["op"] for p in plans for o in p})}
-            lists = mp_lists(w.store)
+            lists = mp_lists(w.store) if mode == "procs" else {k2: v for k2, v in S.locked_lists(w.store, "th").items()}
             if hung:
                 if lists and any(lists.values()):
                     res.violation(dict(shape, symptom="worker-hang", locked=sorted(k3 for k3, v in lists.items() if v)), wit)
@@ -295,7 +302,7 @@ def run_shard(kind, *args):
     if kind == "faults":
         return run_faults(*args)
     if kind == "procs":
-        return run_procs(*args)
+        return run_histories(*args)
     scns, bound, n_random, sub_seed = args
     # check first that the mode is really entered, otherwise part (b) would silently test threading
     scratch = new_scratch("c16b")
